@@ -84,14 +84,16 @@ func PathNewer(target time.Time, sources ...string) (bool, error) {
 // the oldest ModTime among them.
 func OldestModTime(targets ...string) (time.Time, error) {
 	t := time.Now().Add(time.Hour * 100000)
+	first := true
 	for _, target := range targets {
 		walkFn := func(_ string, info os.FileInfo, err error) error {
 			if err != nil {
 				return err
 			}
 			mTime := info.ModTime()
-			if mTime.Before(t) {
+			if first || mTime.Before(t) {
 				t = mTime
+				first = false
 			}
 			return nil
 		}
